@@ -21,6 +21,8 @@ pub enum WirePat {
     /// the request packet of op (packet / subscription identifiers are learned from the wire)
     Request { op: usize },
     Pubrel { pid: u16 },
+    /// a PUBREL re-sent on a resumed session: part of the prescribed resend sequence (C17), in order
+    PubrelResent { pid: u16 },
     /// acknowledgement written by the client: ty 4 PUBACK, 5 PUBREC, 7 PUBCOMP; reason unconstrained
     Ack { ty: u8, pid: u16 },
     Exact(CPacket),
@@ -642,7 +644,7 @@ impl Model {
             }
             if pubrel && st == St::AwaitComp {
                 let pid = self.ops[op].pid.unwrap();
-                self.expected.push(Expect::Wire(WirePat::Pubrel { pid }));
+                self.expected.push(Expect::Wire(WirePat::PubrelResent { pid }));
                 self.hit("resume-resend-pubrel");
             }
         }
@@ -682,6 +684,21 @@ impl Model {
             _ => self.request_len(op, false),
         };
         hi as u64 > mx as u64
+    }
+
+    /// a live QoS 2 publish whose PUBREC (< 0x80) has been processed while its PUBREL is still to come
+    /// according to the future-driven sequence (the future not polled yet, or its request still queued)
+    fn early_pubrel_op(&self, pid: u16) -> Option<usize> {
+        if self.ctx != CtxSt::Running {
+            return None;
+        }
+        (0..self.ops.len()).find(|&i| {
+            let o = &self.ops[i];
+            o.pid == Some(pid)
+                && o.alive
+                && matches!(&o.spec, OpSpec::Publish(p) if p.qos() == 2)
+                && matches!(o.st, St::RecOk | St::RelQueued)
+        })
     }
 
     fn complete(&mut self, op: usize, res: ResPat) {
@@ -786,6 +803,10 @@ impl Model {
             }
         }
         if pubrel {
+            if self.ops[op].st == St::AwaitComp {
+                // (the context had already sent the PUBREL on its own, see `compare`)
+                return;
+            }
             if self.write_gate(&m, resumed) {
                 return;
             }
@@ -1245,7 +1266,7 @@ impl Model {
                 }
                 Ok(())
             }
-            WirePat::Pubrel { pid } => {
+            WirePat::Pubrel { pid } | WirePat::PubrelResent { pid } => {
                 // type and identifier are prescribed; reason / properties of the PUBREL are not
                 match got {
                     CPacket::Pubrel(a) if a.pid == *pid => Ok(()),
@@ -1419,9 +1440,61 @@ impl Model {
                 Expect::Ctx { cmd, res } => ctxs.push_back((cmd, res)),
             }
         }
+        // PUBREL packets form a channel of their own: C06 prescribes "exactly one PUBREL, after the
+        // PUBREC (< 0x80)", not where it stands relative to other packets or to other PUBRELs - an
+        // implementation may let the context answer the PUBREC at once, or (like today's) leave it to
+        // the publish() future when it is polled next.
+        let mut want_rels: Vec<u16> = wires
+            .iter()
+            .filter_map(|w| if let WirePat::Pubrel { pid } = w { Some(*pid) } else { None })
+            .collect();
+        wires.retain(|w| !matches!(w, WirePat::Pubrel { .. }));
+        let mut after_disconnect = false;
         let mut wire_dead = false;
         for o in obs {
             match o {
+                // (re-sent PUBRELs of a resumed session are part of the prescribed resend sequence)
+                Ob::Wire(p @ CPacket::Pubrel(a)) if !matches!(wires.front(), Some(WirePat::Resend { .. } | WirePat::PubrelResent { .. })) => {
+                    if wire_dead {
+                        continue;
+                    }
+                    if after_disconnect {
+                        if self.check_wire {
+                            out.push(Mismatch {
+                                rule: "wire-unexpected:PUBREL".into(),
+                                detail: format!("{} written after the user's DISCONNECT", p.brief()),
+                            });
+                        }
+                        wire_dead = true;
+                    } else if let Some(i) = want_rels.iter().position(|x| *x == a.pid) {
+                        want_rels.remove(i);
+                        if let Err(m) = self.match_wire(&WirePat::Pubrel { pid: a.pid }, p) {
+                            if self.check_wire {
+                                out.push(m);
+                            }
+                            wire_dead = true;
+                        }
+                    } else if let Some(op) = self.early_pubrel_op(a.pid) {
+                        // sent by the context before the caller's future got to it: followed
+                        if let Err(m) = self.match_wire(&WirePat::Pubrel { pid: a.pid }, p) {
+                            if self.check_wire {
+                                out.push(m);
+                            }
+                            wire_dead = true;
+                        }
+                        self.ops[op].st = St::AwaitComp;
+                        self.sent_log.push((op, true));
+                        self.hit("pubrel-sent");
+                    } else {
+                        if self.check_wire {
+                            out.push(Mismatch {
+                                rule: "wire-unexpected:PUBREL".into(),
+                                detail: format!("unexpected packet on the wire: {}", p.brief()),
+                            });
+                        }
+                        wire_dead = true;
+                    }
+                }
                 Ob::Panic { task, msg } => {
                     if self.exempt_panic.map(|e| msg.contains(e)).unwrap_or(false) {
                         continue;
@@ -1448,6 +1521,9 @@ impl Model {
                 Ob::Wire(p) => {
                     if wire_dead {
                         continue;
+                    }
+                    if matches!(p, CPacket::Disconnect(_)) {
+                        after_disconnect = true;
                     }
                     let is_client_ack =
                         matches!(p, CPacket::Puback(_) | CPacket::Pubrec(_) | CPacket::Pubcomp(_));
@@ -1567,6 +1643,9 @@ impl Model {
                 }
             }
         }
+        for pid in want_rels {
+            wires.push_back(WirePat::Pubrel { pid });
+        }
         // anything still expected is missing (a stall, since the system is quiescent)
         if !wire_dead && self.check_wire {
             while !self.check_client_acks && matches!(wires.front(), Some(WirePat::Ack { .. })) {
@@ -1575,7 +1654,7 @@ impl Model {
             if let Some(p) = wires.front() {
                 let kind = match p {
                     WirePat::Request { op } => self.op_kind(*op),
-                    WirePat::Pubrel { .. } => "PUBREL".into(),
+                    WirePat::Pubrel { .. } | WirePat::PubrelResent { .. } => "PUBREL".into(),
                     WirePat::Ack { ty, .. } => format!("ack{}", ty),
                     WirePat::Exact(p) => p.kind().to_string(),
                     WirePat::Resend { .. } => "RESEND".into(),
